@@ -40,11 +40,11 @@ type Prog struct {
 	// ReadUndefined: v2: 1-in-N probes also read a name that is NOT in scope
 	// (the run must end in an error there; a stale value is the bug)
 	ReadUndefined int
-	Boom       bool // boom() may appear as a statement
-	ExitCalls  bool // exit() may appear as a statement
-	UseTargets []string
-	MaxDepth   int
-	MaxStmts   int
+	Boom          bool // boom() may appear as a statement
+	ExitCalls     bool // exit() may appear as a statement
+	UseTargets    []string
+	MaxDepth      int
+	MaxStmts      int
 
 	scopes    []map[string]Ty
 	protected map[string]bool
@@ -725,17 +725,25 @@ func (g *Prog) forLoop(d int) []*gt.T {
 	if shape&4 != 0 {
 		loopC = loop
 	}
+	if loopC != nil && r.Intn(5) == 0 {
+		// the loop clause is a call with an effect (a probe); the counter is
+		// advanced at the top of the body instead
+		loopC = gt.Call("p", gt.Str("loop-clause"), gt.Ident(ctr))
+		if g.AddKey && r.Intn(2) == 0 {
+			loopC = gt.Call("add_key", gt.Ident("o2"), gt.Ident(ctr))
+		}
+	}
 	wasProtected := g.protected[ctr]
 	g.protected[ctr] = true
 	g.loopDepth++
 	g.push()
 	var body []*gt.T
-	if loopC == nil {
+	if loopC == nil || loopC.K == gt.KCall {
 		body = append(body, gt.Clone(loop))
 	}
 	if condC == nil {
 		lim := n
-		if loopC == nil {
+		if loopC == nil || loopC.K == gt.KCall {
 			lim = n + 1
 		}
 		body = append(body, gt.If(gt.Bin(">=", gt.Ident(ctr), gt.Int(lim)), gt.Break()))
